@@ -157,8 +157,9 @@ def gen_parent(rng, versions, versions2=None, comp=None, comp2=None, step=60):
             ts = max(pinned + [commits[c].committed_date for c in ids[:cid - 1]]) + rng.randint(60, step)
         commits[cid] = mg.Commit("par", cid, [commits[p] for p in ps], msg, ts,
                                  {"DEPENDS": json.dumps(depends)})
-    names = rng.sample(["origin/release/5.4", "origin/release/5.10", "origin/release/5.5", "origin/master"],
-                       rng.randint(1, 3))
+    # (the trunk of the parent is called master or, in newer repositories, main)
+    names = rng.sample(["origin/release/5.4", "origin/release/5.10", "origin/release/5.5",
+                        "origin/master" if n % 3 else "origin/main"], rng.randint(1, 3))
     heads = {nm: (rng.choice(ids[-(n // 2 + 1):]) if rng.random() < 0.8 else rng.choice(ids)) for nm in names}
     tags = {}
     bn = 0
@@ -525,8 +526,30 @@ def judge_b(ctx, deps, case):
         ctx.nontrivial(sig_of(case))
 
 
+def long_bump_case(ctx, n):
+    """one parent build moves the pin across n report-related component builds (a component built on every commit,
+    a parent released rarely): each of them is included at that parent build"""
+    base = 1_600_000_000
+    commits, tags, versions = {}, {}, []
+    prev = None
+    for cid in range(1, n + 1):
+        commits[cid] = mg.Commit("comp", cid, [prev] if prev else [], "BUG-7 c%d" % cid, base + cid * 20, {})
+        prev = commits[cid]
+        tags["build_%d_release_10_20_success" % cid] = cid
+        versions.append((cid, (10, 20, cid)))
+    comp = mg.Repo("comp", commits, {"origin/release/10.20": n}, tags)
+    p1 = mg.Commit("par", 1, [], "misc 1", base + 30, {"DEPENDS": json.dumps({"comp": "10.20.1"})})
+    p2 = mg.Commit("par", 2, [p1], "misc 2", base + n * 20 + 60, {"DEPENDS": json.dumps({"comp": "10.20.%d" % n})})
+    par = mg.Repo("par", {1: p1, 2: p2}, {"origin/release/5.4": 2},
+                  {"build_1_release_5_0_success": 1, "build_2_release_5_0_success": 2})
+    ctx.count("component_builds_inside_one_long_bump", n)
+    judge_a(ctx, comp, par, versions, {1: 0, 2: n - 1}, False, {"kind": "long-bump", "n": n})
+
+
 def run_shard(ctx):
     logging.disable(logging.CRITICAL)
+    if ctx.shard == 0:
+        long_bump_case(ctx, 1500)
     for i in range(ctx.cases):
         rng = ctx.rng(i)
         if i % 3 == 2:
@@ -576,6 +599,9 @@ def replay(ctx, case):
     logging.disable(logging.CRITICAL)
     if case["kind"] == "deps":
         judge_b(ctx, case["deps"], case)
+        return
+    if case["kind"] == "long-bump":
+        long_bump_case(ctx, case["n"])
         return
     versions = [(c, tuple(v)) for c, v in case["versions"]]
     pins = {int(k): v for k, v in case["pins"].items()}
